@@ -47,10 +47,6 @@ impl EventLog {
         writer.write_all(line.as_bytes())?;
         #[cfg(rip_verif)]
         rip_kernel::verif::point("log.flush");
-        #[cfg(rip_verif)]
-        if rip_kernel::verif::fail("log.flush") {
-            return Err(io::Error::other("injected flush failure"));
-        }
         writer.flush()?;
         #[cfg(rip_verif)]
         rip_kernel::verif::point("log.appended");
